@@ -244,7 +244,7 @@ Proof.
   destruct (tls_passthrough c); [|reflexivity]. rewrite (rebuild_hosts_idem c s H). reflexivity.
 Qed.
 
-Lemma wve_false k out : with_validation_error false k out = out.
+Lemma wve_false k u out : with_validation_error false k u out = out.
 Proof. destruct out as [[s cs] ps]. reflexivity. Qed.
 
 (* a foreign-class upsert and the deletion of the same key are indistinguishable *)
